@@ -44,10 +44,13 @@ Fetch(t) ==
 \* start(): lock the operation's mutex; thread_ = std::thread(run); ++activeThreadCount_; unlock
 Start(t) == /\ pc[t] = "start"
             /\ LET i == Op(t)[2] IN
-               /\ tpc' = [tpc EXCEPT ![i] = "run"] /\ created' = created \cup {i} /\ count' = count + 1
+               /\ tpc' = [tpc EXCEPT ![i] = "begin"] /\ created' = created \cup {i} /\ count' = count + 1
                /\ accEnded' = accEnded \cup {i}
             /\ Advance(t)
             /\ UNCHANGED <<scn, prev, ttj, mtx, dwait, dsig, itemStop, accBegun, joined, ranSeq, destroyed, bad>>
+\* the new thread starts: run() blocks on the operation's mutex until start() has released it
+Begin(i) == /\ tpc[i] = "begin" /\ tpc' = [tpc EXCEPT ![i] = "run"]
+            /\ UNCHANGED <<scn, pc, ip, prev, itemStop, accBegun, accEnded, created, joined, ranSeq, destroyed, bad>> /\ UNCHANGED UCtx
 \* run(): take thread_ under the operation's mutex, complete the receiver, go on to retire_thread()
 Run(i) == /\ tpc[i] = "run"
           /\ ranSeq' = Append(ranSeq, <<i, IF itemStop[i] THEN 0 ELSE 1, i>>)
@@ -64,21 +67,21 @@ JoinPrev(i) == /\ tpc[i] = "joinprev" /\ tpc[prev[i]] = "finished"
                /\ joined' = joined \cup {prev[i]} /\ tpc' = [tpc EXCEPT ![i] = "finished"]
                /\ UNCHANGED <<scn, pc, ip, prev, itemStop, accBegun, accEnded, created, ranSeq, destroyed, bad>> /\ UNCHANGED UCtx
 \* ~context(): lock; cv_.wait(lk, count == 0); if (threadToJoin_.joinable()) join  (the mutex stays held while joining)
+\* (the last step releases the mutex and returns: the context is destroyed)
 DBody(t) == IF count = 0
-            THEN /\ mtx' = t /\ dwait' = FALSE
-                 /\ pc' = [pc EXCEPT ![t] = IF ttj # 0 THEN "d_join" ELSE "d_end"]
-            ELSE /\ mtx' = 0 /\ dwait' = TRUE /\ pc' = [pc EXCEPT ![t] = "d_wait"]
+            THEN IF ttj # 0
+                 THEN /\ mtx' = t /\ dwait' = FALSE /\ pc' = [pc EXCEPT ![t] = "d_join"] /\ UNCHANGED <<ip, destroyed>>
+                 ELSE /\ mtx' = 0 /\ dwait' = FALSE /\ destroyed' = TRUE /\ Advance(t)
+            ELSE /\ mtx' = 0 /\ dwait' = TRUE /\ pc' = [pc EXCEPT ![t] = "d_wait"] /\ UNCHANGED <<ip, destroyed>>
 DLock(t) == /\ pc[t] = "d_lock" /\ mtx = 0 /\ DBody(t) /\ UNCHANGED dsig
-            /\ UNCHANGED <<scn, ip, tpc, prev, count, ttj, itemStop, accBegun, accEnded, created, joined, ranSeq, destroyed, bad>>
+            /\ UNCHANGED <<scn, tpc, prev, count, ttj, itemStop, accBegun, accEnded, created, joined, ranSeq, bad>>
 DWake(t) == /\ pc[t] = "d_wait" /\ dsig /\ mtx = 0 /\ dsig' = FALSE /\ DBody(t)
-            /\ UNCHANGED <<scn, ip, tpc, prev, count, ttj, itemStop, accBegun, accEnded, created, joined, ranSeq, destroyed, bad>>
+            /\ UNCHANGED <<scn, tpc, prev, count, ttj, itemStop, accBegun, accEnded, created, joined, ranSeq, bad>>
 DJoin(t) == /\ pc[t] = "d_join" /\ tpc[ttj] = "finished"
-            /\ joined' = joined \cup {ttj} /\ pc' = [pc EXCEPT ![t] = "d_end"]
-            /\ UNCHANGED <<scn, ip, tpc, prev, itemStop, accBegun, accEnded, created, ranSeq, destroyed, bad>> /\ UNCHANGED UCtx
-DEnd(t) == /\ pc[t] = "d_end" /\ mtx' = 0 /\ destroyed' = TRUE /\ Advance(t)
-           /\ UNCHANGED <<scn, tpc, prev, count, ttj, dwait, dsig, itemStop, accBegun, accEnded, created, joined, ranSeq, bad>>
-HStep(t) == Fetch(t) \/ Start(t) \/ DLock(t) \/ DWake(t) \/ DJoin(t) \/ DEnd(t)
-IStep(i) == Run(i) \/ Retire(i) \/ JoinPrev(i)
+            /\ joined' = joined \cup {ttj} /\ mtx' = 0 /\ destroyed' = TRUE /\ Advance(t)
+            /\ UNCHANGED <<scn, tpc, prev, count, ttj, dwait, dsig, itemStop, accBegun, accEnded, created, ranSeq, bad>>
+HStep(t) == Fetch(t) \/ Start(t) \/ DLock(t) \/ DWake(t) \/ DJoin(t)
+IStep(i) == Begin(i) \/ Run(i) \/ Retire(i) \/ JoinPrev(i)
 AllDone == (\A t \in HThreads : pc[t] = "done") /\ (\A i \in Items : tpc[i] \in {"none", "finished"})
 Finished == AllDone /\ UNCHANGED vars
 Next == (\E t \in HThreads : HStep(t)) \/ (\E i \in Items : IStep(i)) \/ Finished
@@ -92,7 +95,7 @@ DoneOnlyIfStopRequested == \A k \in 1..Len(ranSeq) : ranSeq[k][2] = 0 => itemSto
 \* touches the context afterwards
 AllThreadsJoined == destroyed => (created = joined /\ accEnded \subseteq RanSet /\ \A i \in created : tpc[i] = "finished")
 NoTouchAfterDestroy == ~bad
-CountSane == count + (IF \E t \in HThreads : pc[t] \in {"d_lock", "d_wait", "d_join", "d_end"} \/ destroyed THEN 1 ELSE 0)
-               = 1 + Cardinality({i \in Items : tpc[i] \in {"run", "retire"}})
+CountSane == count + (IF \E t \in HThreads : pc[t] \in {"d_lock", "d_wait", "d_join"} \/ destroyed THEN 1 ELSE 0)
+               = 1 + Cardinality({i \in Items : tpc[i] \in {"begin", "run", "retire"}})
 Terminates == <>AllDone
 =============================================================================
